@@ -23,8 +23,23 @@ def build_object(raises, log):
                                     interface.Method('Words', arguments='sa{sv}', returns='as'),
                                     interface.Method('Pair', arguments='sa{sv}', returns='(ss)'), noRegister=True)
 
+    other = interface.DBusInterface('org.ex.Other', interface.Method('Pair', arguments='sa{sv}', returns='(ss)'),
+                                    interface.Method('Words', arguments='sa{sv}', returns='as'), noRegister=True)
+
     class Srv(objects.DBusObject):
-        dbusInterfaces = [iface]
+        # the same members are also declared on an interface listed FIRST: a call that names
+        # org.ex.Echo must still reach the org.ex.Echo implementation
+        dbusInterfaces = [other, iface]
+
+        @objects.dbusMethod('org.ex.Other', 'Pair')
+        def other_pair(self, s, extra):
+            log.append(('OTHER', s))
+            return ('other', 'x')
+
+        @objects.dbusMethod('org.ex.Other', 'Words')
+        def other_words(self, s, extra):
+            log.append(('OTHER', s))
+            return ['other']
 
         def dbus_Echo(self, s, extra):
             log.append((s, extra))
@@ -32,13 +47,15 @@ def build_object(raises, log):
                 raise SrvError('boom:' + s)
             return ['r:' + s, (len(extra), 'é' + s)]
 
-        def dbus_Words(self, s, extra):           # one array, holding exactly one element
+        @objects.dbusMethod('org.ex.Echo', 'Words')
+        def echo_words(self, s, extra):           # one array, holding exactly one element
             log.append((s, extra))
             if s in raises:
                 raise SrvError('boom:' + s)
             return ['w:' + s]
 
-        def dbus_Pair(self, s, extra):            # one struct
+        @objects.dbusMethod('org.ex.Echo', 'Pair')
+        def echo_pair(self, s, extra):            # one struct
             log.append((s, extra))
             if s in raises:
                 raise SrvError('boom:' + s)
@@ -49,6 +66,7 @@ def build_object(raises, log):
 class E2EDriver:
     def __init__(self, calls, raises, introspect=False, unix=False, extra_clients=0):
         self.calls = list(calls)
+        self.introspect = introspect
         self.raises = {'arg%d' % k for k in raises}
         self.net = fakes.BusNet(unix=unix)
         self.a = self.net.add_client()
@@ -111,7 +129,8 @@ class E2EDriver:
         if name == 'ProxyCall':
             k = args[0]
             self.state[k] = 'called'
-            d = self.proxy.callRemote(METHOD[k % 3], 'arg%d' % k, {'k': k, 'why': 'x' * (k % 3)})
+            kw = {'interface': 'org.ex.Echo'} if self.introspect else {}     # an explicit proxy only knows org.ex.Echo
+            d = self.proxy.callRemote(METHOD[k % 3], 'arg%d' % k, {'k': k, 'why': 'x' * (k % 3)}, **kw)
             d.addCallbacks(lambda v, k=k: self._res(k, ('value', v)), lambda f, k=k: self._res(k, ('error', f)))
         else:
             l, n, p = args
